@@ -232,6 +232,12 @@ func (d *faultDir) Load(kind string, id uint64) (*segment.Data, io.Closer, error
 	if bad, _ := d.p.check(op, false); bad {
 		if kind == index.ItemKindSnapshot {
 			d.p.c.record(fmt.Sprintf("loadfail %d", id))
+		} else {
+			d.p.c.mu.Lock()
+			if !d.p.c.mergeSeg[id] { // a segment of the persister's own job (a merged segment may be the file merger's)
+				d.p.c.jobErrInjected = true
+			}
+			d.p.c.mu.Unlock()
 		}
 		return nil, nil, errInjected
 	}
@@ -264,6 +270,11 @@ func (d *faultDir) Persist(kind string, id uint64, w index.WriterTo, closeCh cha
 	bad, place := d.p.check(op, false)
 	if !bad {
 		return d.inner.Persist(kind, id, w, closeCh)
+	}
+	if op != "persist-mseg" {
+		d.p.c.mu.Lock()
+		d.p.c.jobErrInjected = true
+		d.p.c.mu.Unlock()
 	}
 	b, ok := w.(bytesWriterTo)
 	switch {
